@@ -116,6 +116,46 @@ def concrete_batch(records, compiled_dir=None, timeout=1800):
         shutil.rmtree(tmp, ignore_errors=True)
 
 
+def _cvc5_one(txt):
+    import cvc5
+    t0 = time.time()
+    try:
+        slv = cvc5.Solver()
+        slv.setOption('tlimit-per', '20000')
+        slv.setLogic('ALL')
+        ip = cvc5.InputParser(slv)
+        ip.setStringInput(cvc5.InputLanguage.SMT_LIB_2_6, txt + '\n(check-sat)\n', 'q')
+        sm = ip.getSymbolManager()
+        res = None
+        while True:
+            cmd = ip.nextCommand()
+            if cmd.isNull():
+                break
+            out = cmd.invoke(slv, sm)
+            if 'sat' in str(out):
+                res = str(out).strip()
+        return res or 'unknown', time.time() - t0
+    except Exception as e:
+        return 'error:' + repr(e)[:80], time.time() - t0
+
+
+def second_opinion(samples):
+    out = dict(sampled=len(samples), agree=0, unknown=0, disagree=0, seconds=0.0, disagreements=[])
+    ctxmp = mp.get_context('fork')
+    with ctxmp.Pool(min(NPROC, max(1, len(samples)))) as pool:
+        for smp, (res, dt) in zip(samples, pool.map(_cvc5_one, [x['smt2'] for x in samples], chunksize=1)):
+            out['seconds'] += dt
+            if res == 'unsat':
+                out['agree'] += 1
+            elif res == 'sat':
+                out['disagree'] += 1
+                out['disagreements'].append(smp['label'])
+            else:
+                out['unknown'] += 1
+    out['seconds'] = round(out['seconds'], 1)
+    return out
+
+
 def build_compiled():
     """Cythonize the working tree's core.py in a scratch copy; returns the directory (caller removes it)."""
     d = tempfile.mkdtemp(prefix='symbt_build_')
@@ -158,7 +198,10 @@ def main(argv):
     for t in plan:
         opts = dict(t.get('opts', {}))
         opts.setdefault('seed', seed)
-        tasks.append(('harness.' + pid, t['harness'], t['cfg'], opts))
+        cfgx = dict(t['cfg'])
+        if tier == 'thorough':
+            cfgx.setdefault('second_opinion', 2)          # per task: proved non-trivial obligations re-discharged with cvc5
+        tasks.append(('harness.' + pid, t['harness'], cfgx, opts))
     if seed:
         import random
         random.Random(seed).shuffle(tasks)
@@ -197,6 +240,13 @@ def main(argv):
     if hasattr(mod, 'extra_checks'):
         extra = mod.extra_checks(tier, seed) or []
 
+    # ---- second opinion (thorough): re-discharge a sample of proved obligations with cvc5; a disagreement is a harness error
+    second = dict(sampled=0, agree=0, unknown=0, disagree=0, seconds=0.0)
+    smt = [x for st in results for x in st.get('smt2_samples', [])]
+    if smt:
+        import random as _r
+        _r.Random(seed).shuffle(smt)
+        second = second_opinion(smt[:int(os.environ.get('VERIF_SECOND_OPINION_MAX', '150'))])
     known = load_known()
     agg = dict(paths=0, completed=0, decisions=0, queries=0, tsolve=0.0, unknown=0, obligations=0, discharged=0, trivial=0,
                undecided=0, thin=0, unsupported=0, bound_exceeded=0, infeasible=0, reach=0, incomplete=0, maxdeg=0, errors=[],
@@ -268,6 +318,25 @@ def main(argv):
         else:
             (unconfirmed if not k else []).append((task, v, r))
 
+    # ---- uncaught exceptions raised inside bt on a feasible path: if unshimmed bt raises the same exception type on the path's model,
+    #      the property cannot hold there (no result at all) and it is reported as a violation; otherwise it stays an internal error
+    exc_recs, exc_meta = [], []
+    for e in agg['errors']:
+        if e.get('inputs') is not None and e.get('in_bt'):
+            exc_recs.append(dict(module='harness.' + pid, harness=e['harness'], cfg=e['cfg'], inputs=e['inputs'], ufs=e.get('ufs', {})))
+            exc_meta.append(e)
+    if exc_recs:
+        for e, r in zip(exc_meta, concrete_batch(exc_recs)):
+            if r['outcome'] == 'error' and e['etype'] in r.get('error', ''):
+                v = dict(label='bt-raises-' + e['etype'], detail=e['error'], inputs=e['inputs'], ufs=e.get('ufs', {}), notes={})
+                k = match_known(known, pid, e['harness'], e['cfg'], v)
+                if k:
+                    confirmed_known.setdefault(k['id'], []).append((('harness.' + pid, e['harness'], e['cfg']), v, r))
+                else:
+                    confirmed_new.append((('harness.' + pid, e['harness'], e['cfg']), v, r))
+                e['confirmed_concretely'] = True
+        agg['errors'] = [e for e in agg['errors'] if not e.get('confirmed_concretely')] if confirmed_new or confirmed_known else agg['errors']
+
     # ---- witness replays (one model per sampled completed path) on source and, when asked, the compiled build
     wcap = getattr(mod, 'WITNESS_CAP', {}).get(tier, 150)
     if len(witness_recs) > wcap:
@@ -337,6 +406,8 @@ def main(argv):
         hard_errors.append('%d counterexample(s) did not reproduce on unshimmed bt, first: %s' % (
             len(unconfirmed), json.dumps(dict(harness=unconfirmed[0][0][1], cfg=unconfirmed[0][0][2], label=unconfirmed[0][1]['label'],
                                               inputs=unconfirmed[0][1]['inputs'], detail=unconfirmed[0][1].get('detail'), concrete=unconfirmed[0][2]), default=str)[:1500]))
+    if second.get('disagree'):
+        hard_errors.append('cvc5 finds sat where z3 proved unsat: %s' % second.get('disagreements')[:3])
     for e in extra:
         if e.get('status') == 'violation':
             lines.append('VIOLATION property=%s replay=%s' % (pid, e.get('replay', '')))
@@ -362,7 +433,7 @@ def main(argv):
             obligations=agg['obligations'], discharged=agg['discharged'], discharged_trivially=agg['trivial'],
             undecided=agg['undecided'], thin_margin=agg['thin'], reachability_witnesses=agg['reach'],
             solver=dict(name='z3 ' + _z3v(), queries=agg['queries'], seconds=round(agg['tsolve'], 2), unknown=agg['unknown'], max_degree=agg['maxdeg']),
-            symbolic_tasks=len(tasks), per_harness=per_harness,
+            symbolic_tasks=len(tasks), per_harness=per_harness, second_opinion_cvc5=second,
             functions_executed_symbolically=sorted(functions),
             witness_replays=dict(source_ok=w_ok, source_bad=[dict(harness=w['harness'], cfg=w['cfg'], inputs=w['inputs'], result=r) for w, r in w_bad[:5]], compiled=compiled_info),
             counterexamples=dict(found=len(viol_recs), replayed=len(sel), confirmed_new=len(confirmed_new), confirmed_known=n_known_listed,
@@ -400,6 +471,8 @@ def main(argv):
         print('   WITNESS-MISMATCH', w['harness'], json.dumps(w['cfg'], default=str)[:200], json.dumps(w['inputs'])[:300], json.dumps(r)[:400])
     if compiled_info:
         print('   compiled build:', json.dumps(compiled_info)[:600])
+    if second.get('sampled'):
+        print('   second opinion (cvc5):', json.dumps({k: v for k, v in second.items() if k != 'disagreements'}))
     for e in extra:
         print('   extra:', json.dumps(e, default=str)[:400])
     for he in hard_errors:
